@@ -138,6 +138,7 @@ impl Samples for RawVariants {
 
 pub fn gen_c14(r: &mut Rng, thorough: bool, out: &mut Vec<String>) {
     let n = if thorough { 40 } else { 4 };
+    gen_schemaof(out);
     for_each_corpus_type(r, n, out, false);
 }
 
@@ -242,7 +243,76 @@ pub fn gen_real(r: &mut Rng, thorough: bool, out: &mut Vec<String>) {
     }
 }
 
+pub fn schema_str<T: Schema + ?Sized>() -> String {
+    show(&OwnedDataModelType::from(T::SCHEMA))
+}
+
+macro_rules! rty { ($v:ident, $s:expr, $t:ty) => { $v.push(($s.to_string(), schema_str::<$t>())); }; }
+
+/// descriptions (grammar of Model/SchemaImpls.lean `RTy`) of concrete Rust types and their real SCHEMA
+pub fn rty_entries() -> Vec<(String, String)> {
+    let mut v: Vec<(String, String)> = Vec::new();
+    rty!(v, "u8", u8); rty!(v, "u16", u16); rty!(v, "u32", u32); rty!(v, "u64", u64); rty!(v, "u128", u128);
+    rty!(v, "i8", i8); rty!(v, "i16", i16); rty!(v, "i32", i32); rty!(v, "i64", i64); rty!(v, "i128", i128);
+    rty!(v, "(nzu 8)", NonZeroU8); rty!(v, "(nzu 16)", NonZeroU16); rty!(v, "(nzu 32)", NonZeroU32); rty!(v, "(nzu 64)", NonZeroU64); rty!(v, "(nzu 128)", NonZeroU128);
+    rty!(v, "(nzi 8)", NonZeroI8); rty!(v, "(nzi 16)", NonZeroI16); rty!(v, "(nzi 32)", NonZeroI32); rty!(v, "(nzi 64)", NonZeroI64); rty!(v, "(nzi 128)", NonZeroI128);
+    rty!(v, "bool", bool); rty!(v, "f32", f32); rty!(v, "f64", f64); rty!(v, "char", char); rty!(v, "str", str); rty!(v, "unit", ());
+    rty!(v, "string", String); rty!(v, "pathbuf", std::path::PathBuf); rty!(v, "uuid", uuid::Uuid); rty!(v, "key", postcard_schema::key::Key);
+    rty!(v, "datetime", chrono::DateTime<chrono::Utc>); rty!(v, "datetime", chrono::DateTime<chrono::FixedOffset>);
+    rty!(v, "dmt", postcard_schema::schema::DataModelType); rty!(v, "odmt", OwnedDataModelType);
+    rty!(v, "(tuple u8)", (u8,)); rty!(v, "(tuple u8 i16)", (u8, i16)); rty!(v, "(tuple u8 i16 string)", (u8, i16, String));
+    rty!(v, "(tuple bool char f32 f64)", (bool, char, f32, f64)); rty!(v, "(tuple u8 u8 u8 u8 u128)", (u8, u8, u8, u8, u128));
+    rty!(v, "(tuple unit (option u8) (tuple u8) (array u8 2) string i128)", ((), Option<u8>, (u8,), [u8; 2], String, i128));
+    rty!(v, "(option u16)", Option<u16>); rty!(v, "(option (option string))", Option<Option<String>>); rty!(v, "(result u8 string)", Result<u8, String>);
+    rty!(v, "(result unit (vec u8))", Result<(), Vec<u8>>); rty!(v, "(ref u32)", &'static u32); rty!(v, "(ref (ref str))", &'static &'static str);
+    rty!(v, "(slice u8)", [u8]); rty!(v, "(ref (slice string))", &'static [String]); rty!(v, "(vec u8)", Vec<u8>); rty!(v, "(vec (option u16))", Vec<Option<u16>>);
+    rty!(v, "(vec (vec i32))", Vec<Vec<i32>>); rty!(v, "(array u8 0)", [u8; 0]); rty!(v, "(array u8 1)", [u8; 1]); rty!(v, "(array u16 32)", [u16; 32]);
+    rty!(v, "(array (array i8 2) 2)", [[i8; 2]; 2]); rty!(v, "(array (tuple u8 bool) 3)", [(u8, bool); 3]);
+    rty!(v, "(btreeset u32)", BTreeSet<u32>); rty!(v, "(hashset string)", HashSet<String>); rty!(v, "(btreemap string u32)", BTreeMap<String, u32>);
+    rty!(v, "(hashmap string (vec u8))", HashMap<String, Vec<u8>>); rty!(v, "(btreemap u16 string)", BTreeMap<u16, String>); rty!(v, "(hashmap (tuple u8 u8) bool)", HashMap<(u8, u8), bool>);
+    rty!(v, "(range u16)", Range<u16>); rty!(v, "(rangeinc i64)", RangeInclusive<i64>); rty!(v, "(rangefrom u8)", RangeFrom<u8>); rty!(v, "(rangeto char)", RangeTo<char>);
+    rty!(v, "(hvec07 u8 4)", heapless::Vec<u8, 4>); rty!(v, "(hvec07 string 2)", heapless::Vec<String, 2>); rty!(v, "(hstring07 8)", heapless::String<8>);
+    rty!(v, "(hvec08 u8 4)", heapless08::Vec<u8, 4>); rty!(v, "(hvec08 (tuple u8 i64) 3)", heapless08::Vec<(u8, i64), 3>); rty!(v, "(hstring08 8)", heapless08::String<8>);
+    rty!(v, "(matrix f32 2 2)", nalgebra::SMatrix<f32, 2, 2>); rty!(v, "(matrix u8 2 3)", nalgebra::SMatrix<u8, 2, 3>); rty!(v, "(matrix i16 3 1)", nalgebra::SMatrix<i16, 3, 1>);
+    rty!(v, "(dstruct UnitS unit)", UnitS); rty!(v, "(dstruct NewS (unnamed u32))", NewS); rty!(v, "(dstruct TupS (unnamed u8 string (option i16)))", TupS);
+    rty!(v, "(dstruct Tup0 (unnamed))", Tup0); rty!(v, "(dstruct Named0 (named))", Named0); rty!(v, "(dstruct Point (named (x i32) (y i32)))", Point);
+    rty!(v, "(dstruct GenS (named (t u8) (u (vec string)) (both (tuple u8 string))))", GenS<u8, String>);
+    rty!(v, "(dstruct Life (named (s (ref str)) (b (ref (slice u16)))))", Life<'static>);
+    rty!(v, "(denum AllKinds (A unit) (B (unnamed u64)) (C (unnamed u8 bool)) (D (named (a i8) (b string))) (E (unnamed)) (F (named)))", AllKinds);
+    rty!(v, "(denum OneVar (Only (unnamed (dstruct Point (named (x i32) (y i32))))))", OneVar);
+    rty!(v, "(denum GenE (None unit) (Some (unnamed u8)) (Pair (unnamed u8 u8)) (Rec (named (inner (vec u8)))))", GenE<u8>);
+    rty!(v, "(dstruct r#RawName (named (plain u8)))", r#RawName);
+    rty!(v, "(dstruct RawFields (named (r#type u8) (r#fn u16) (plain bool)))", RawFields);
+    rty!(v, "(denum RawVariants (r#type unit) (r#Match (unnamed u8)) (Plain (named (r#loop i8))))", RawVariants);
+    v.extend(crate::generated_schema::generated_rty_entries());
+    v
+}
+
+pub fn gen_schemaof(out: &mut Vec<String>) {
+    let mut seen = std::collections::HashSet::new();
+    for (r, _) in rty_entries() {
+        if seen.insert(r.clone()) {
+            out.push(format!("schemaof {}", r));
+        }
+    }
+}
+
 pub fn eval(ctx: &mut Ctx, op: &str, args: &[Sexp]) -> Option<String> {
+    if op == "schemaof" {
+        let key = ctx.line.trim_start_matches("schemaof").trim().to_string();
+        let mut ans: Option<String> = None;
+        for (r, s) in rty_entries() {
+            if r == key {
+                if let Some(a) = &ans {
+                    if *a != s {
+                        return Some(format!("FAIL two Rust types described by {} have different SCHEMAs", key));
+                    }
+                }
+                ans = Some(s);
+            }
+        }
+        return Some(format!("ok {}", ans?));
+    }
     if op == "realrt" {
         let idx: usize = args.first()?.atom()?.parse().ok()?;
         let bytes = crate::sexp::unhex(args.get(2)?.atom()?)?;
